@@ -43,19 +43,38 @@ def _role(t):
     return "+".join(sorted(sides))
 
 
-def signature(P, b):
+def signature(P, b0):
+    """routing signature of a function *and the closures / local functions it runs* (whether a step is written inline or inside a
+    combinator closure - `new(..).ok_or_else(..).and_then(|p| visit(p, ..))` against `let Some(p) = new(..) else {..}; visit(p, ..)` -
+    does not change what is routed where); captured values are traced to their origin in the enclosing function"""
+    from ..engine import lists as L
+    sig = collections.Counter()
+    for b in L.with_callables(P, b0):
+        if b is not b0 and b.kind != "Closure":
+            continue
+        sig.update(_signature1(P, b))
+    return sig
+
+
+def _signature1(P, b):
     S = T.Slicer(b, P)
     sig = collections.Counter()
+    up = (lambda x: T.expand_upvars(P, b, x, depth=4)) if b.kind == "Closure" else (lambda x: x)
     for blk, t in b.calls():
         if Q.in_tracing(t["span"]):
             continue
         n = callee_of(t)
         last = _norm(n.rsplit("::", 1)[-1])
         ws = n.startswith("huginn_net") or "huginn_net" in n.split(" as ")[0]
-        a = Q.call_args(b, S, blk, t)
+        a = [up(x) for x in Q.call_args(b, S, blk, t)]
         roles = tuple(_role(x) for x in a)
         if ws or any(r != "-" for r in roles):
             if last in ("get_source", "get_destination", "clone", "deref", "from", "into", "branch", "from_residual", "ok_or_else", "map_err", "and_then", "map"):
+                continue
+            # std adapters that hand their argument on unchanged (Option / reference plumbing) route nothing
+            if not ws and (T.is_identity_call(n) or last in ("as_ref", "as_deref", "as_mut", "as_deref_mut", "unwrap_or", "unwrap_or_default", "unwrap_or_else", "ok",
+                                                             "is_some", "is_none", "is_ok", "is_err", "cloned", "copied", "to_owned", "to_string", "as_str", "as_slice",
+                                                             "borrow", "take", "iter", "or_else", "ok_or", "filter", "then", "then_some", "is_some_and")):
                 continue
             sig[("call", last, roles)] += 1
     for i, j, s in b.iter_stmts():
@@ -63,7 +82,7 @@ def signature(P, b):
             path = s["r"].get("path") or ""
             if not path.startswith("huginn_net"):
                 continue
-            t = S.rvalue(s["r"], i, j)
+            t = up(S.rvalue(s["r"], i, j))
             fields = s["r"].get("fields") or []
             roles = tuple((f, _role(x)) for f, x in zip(fields, t[4]) if _role(x) != "-")
             var = s["r"].get("variant")
@@ -71,7 +90,7 @@ def signature(P, b):
                 sig[("agg", _norm(path.rsplit("::", 1)[-1]), var if var in ("Client", "Server") else None, roles)] += 1
     from ..engine import tables as TB
     for (rb, j, term, _c) in TB.return_sites(b, P):
-        tt = T.strip(term)
+        tt = T.strip(up(term))
         if tt[0] == "agg" and tt[1] == "tuple":
             roles = tuple(_role(x) for x in tt[4])
             if any(r != "-" for r in roles):
@@ -82,7 +101,7 @@ def signature(P, b):
 def twins(P, crates):
     groups = collections.defaultdict(list)
     for b in P.bodies.values():
-        if b.crate in crates and b.blocks:
+        if b.crate in crates and b.blocks and b.kind != "Closure":
             n = _norm(b.path)
             if n != b.path:
                 groups[n].append(b)
@@ -97,8 +116,9 @@ def twin_agreement(ctx, P, rule, crates, floor=8):
         if not s1 and not s2:
             continue
         n += 1
-        only1 = sorted((s1 - s2).elements(), key=str)
-        only2 = sorted((s2 - s1).elements(), key=str)
+        # compared as sets: how often a routed step is written (a guard duplicated in one copy, merged in the other) is not routing
+        only1 = sorted(set(s1) - set(s2), key=str)
+        only2 = sorted(set(s2) - set(s1), key=str)
         short = T.short(b1.path).split(" as ")[-1]
         ctx.check(not only1 and not only2, rule, "twins:%s:%s" % (b1.crate.replace("huginn_net", "hn"), _norm(short)),
                   "IPv4 and IPv6 copies route sides / roles / lookups identically (%d routed items)" % sum(s1.values()),
